@@ -111,6 +111,47 @@ add("C17", "e_text", "exploration",
     "Exploration only. Hang is judged by a 60 s per-input wall limit (>10^4 x the typical cost) inside the worker.",
     "DESIGN.md §6 C17")
 
+add("C01", "e_netsim", "exploration",
+    "runtime monitoring: reference-model oracle + provenance tags + upstream exchange log (fake network, hook H1)",
+    "Generated configurations (1..4 nested zones, authoritative and hosts-style, CNAMEs in/across/out of zones, wildcards, delegations, ENTs, blocklist entries), a cache pre-seeded with conflicting records "
+    "for the very names the zones own, and an upstream that answers every question with differently tagged data; every name x 9 qtypes in authoritative-only, recursive and forwarding mode through dns_resolver::resolve. "
+    "The most specific zone (own computation) and the C02 reference lookup decide what must come back: exact records, AA + zone SOA, name error only from an authoritative zone, no upstream exchange for locally answered questions, "
+    "delegated questions sent only to the delegation's servers; every returned record owned by an authoritative zone's name must be that zone's data (unique RDATA tags per source).",
+    "Trusts the C02 reference model. T1 (no AA demanded once a chain leaves authoritative data), D1. Upstream in these runs never aliases into locally authoritative names in one reply (that acceptance is the business of C06).",
+    "DESIGN.md §6 C01")
+add("C06", "e_netsim", "exploration",
+    "runtime monitoring of the reply filter against an allowed-set oracle (direct via hook H2 and end-to-end via hook H1)",
+    "Millions of adversarial replies (on/off-path CNAMEs, loops, NS for ancestors of every depth / non-ancestors / foreign owners naming the same hosts, glue for named and unnamed hosts, data at wrong names and of wrong types, several SOAs, unknown types and classes) "
+    "are given to the real filter with delegation depths 0..5; everything it keeps, the continuation name and the delegation must lie in the allowed set computed from the statement (section-agnostic, every CNAME branch). "
+    "End to end: the first upstream reply of a real resolution is such a reply (later ones REFUSED); what is newly in the cache and in the answer must lie in the allowed set; replies with a wrong ID / QR / opcode / TC / rcode / question (UDP and TCP retry) must change nothing.",
+    "The oracle is deliberately at least as permissive as the statement. Only the recursive resolver is claimed (forwarding mode trusts its forwarder by design).",
+    "DESIGN.md §6 C06")
+add("C07", "e_netsim", "exploration",
+    "runtime monitoring against generated DNS universes with fake authoritative servers (hook H1) and a globally computed expectation",
+    "Consistent hierarchies (2..12 zones, depth 1..5, 1..3 name servers per zone in-bailiwick with glue or hosted elsewhere with/without glue, v4/v6/dual hosts, ENT apexes, cross-zone alias chains up to 8 links) are served by RFC 1034 §4.3.2 fake servers through the transport hook; "
+    "sequences of 1..6 questions share one cache, in all four protocol modes. Each result must equal what the authoritative servers hold (alias chain in order, final RRset as a multiset with TTL <=, zone SOA for NODATA/NXDOMAIN); the exchange log must show strictly deeper zones for the user's question.",
+    "Trusts the universe generator's consistency and its expectation function. T4 (one address per family per host, glue == authoritative data, CNAME-type questions may return any chain prefix). Cache clock frozen.",
+    "DESIGN.md §6 C07")
+add("C08", "e_netsim", "fault_enumeration",
+    "fault injection at the transport hook under tokio's paused clock; enumeration of fault plans over the first k exchanges; process-level crash/hang monitor",
+    "Every assignment of 12 principal faults (ok, drop, 4.9 s / 5.1 s delay, garbage, cut reply, wrong ID, QR=0, TC=1, wrong question, SERVFAIL, empty NOERROR) to the first 3 (quick) / 4 (thorough) upstream exchanges x 6 universes x {recursive, forwarding}, plus random plans of length <= 40 over 22 faults "
+    "and hostile universes (everything slow so that only the 60 s budget ends the run, circular referrals, alias loop and 40-link alias chain across replies, unresolvable name server). Judged on virtual time: resolve() returns within 60 s, every exchange future is released within 5 s, no panic/abort/hang, every record of an Ok answer was supplied by some reply or by local data.",
+    "Enumeration is complete only for the stated plan space; delays are virtual (tokio paused clock), so real-socket timing is out of scope here (C18 thorough has a real-socket shard).",
+    "DESIGN.md §6 C08")
+add("C10", "e_netsim", "exploration",
+    "runtime monitoring of answer structure over generated alias graphs (zones, cache, upstream via hook H1); crash monitor on 2 MiB threads",
+    "Alias graphs (chains of 0..40 links, cycles, rho shapes, other-type records beside CNAMEs) with every link and the final RRset independently placed in an authoritative zone, a second one, the non-authoritative root zone, the cache or upstream; A/TXT/MX questions (CNAME/ANY for totality) in all three modes, each asked twice on one cache. "
+    "Every answer: leading CNAMEs form a path from the question name, no owner twice, each record is the one its source holds, only asked-type records of the final target follow, nothing repeated; acyclic chains <= 28 links obtainable in the mode come back complete; no panic, hang or stack overflow.",
+    "T5: one reply's internal order is the sender's. Each alias name lives in exactly one source. In forwarding mode 'obtainable' means all links after the first upstream one are upstream.",
+    "DESIGN.md §6 C10")
+add("C18", "e_netsim", "exploration",
+    "runtime monitoring of the upstream exchange log (destinations, ports, order of address questions) with held-address snapshots at exchange time",
+    "Universes whose name servers are v4-only, v6-only or dual, with addresses learnt from hints, glue, a pre-seeded cache or recursive lookup; four protocol modes x ports {1,53,5353,65535}, one run in six in forwarding mode. "
+    "Per exchange: destination port = configured port; only-v4/only-v6 never use the other family; under prefer-X, when a host is contacted at its other-family address, zones and unexpired cache (read through the read-only snapshot) hold no X address of it; "
+    "the first upstream address question of a name-server lookup is for the preferred family; forwarding mode talks to the forwarder only.",
+    "Destination -> host is a function because generated hosts have unique addresses. The real socket send/receive path is bypassed by the hook (covered by the black-box engine).",
+    "DESIGN.md §6 C18")
+
 UNDER_CONSTRUCTION = "check not built yet in this revision (see DESIGN.md §6); the technique applies, this is not a claim of inapplicability"
 
 ALL = ["C%02d" % i for i in range(1, 20)]
